@@ -628,41 +628,56 @@ def mon19 : Monitor G14 where
 
 /-! #### C05 / C06: installs only verified content; failures leave the installed state alone -/
 
+/-- What the download of an update inflates to against the configured base library, if it does. -/
+def dlDecoded (libs : List (String × Bytes)) (c : Config) (sc : UpdateScript) : Option Bytes :=
+  match sc.dl, libs.lookup c.libapp with
+  | some s, some base => (match bipatchDecode s base with | .ok o => some o | .error _ => none)
+  | _, _ => none
+
+/-- The download verifies: it inflates, matches the advertised hash, and is signed if required. -/
+def dlGood (env : Env) (libs : List (String × Bytes)) (c : Config) (sc : UpdateScript) (offer : Option Offer) : Bool :=
+  match dlDecoded libs c sc, offer with
+  | some o, some off => checkHash o off.hash && signatureOk env c.key off.sig o
+  | _, _ => false
+
+/-- A failed or no-op update is expected to leave the installed state alone when the response rolls
+    nothing back, the state is readable and of this release, and the selection was intact. -/
+def quietUpdate (env : Env) (cfg : Option Config) (c : Config) (op : Op) (pre : View) : Bool :=
+  decide (rolledBackBy cfg op = []) && !resetsState cfg op pre &&
+    (match pre.ps.next with | some m => pre.valid env c.key m | none => true)
+
+/-- A healthy offer: good content, available, not banned, readable state, not yet selected, not
+    rolled back by the same response. -/
+def healthyOffer (env : Env) (libs : List (String × Bytes)) (cfg : Option Config) (c : Config) (op : Op)
+    (sc : UpdateScript) (r : CheckResp) (off : Offer) (pre : View) : Bool :=
+  dlGood env libs c sc (some off) && r.available && !pre.ps.bad.contains off.number && !resetsState cfg op pre &&
+    decide (pre.nextNum ≠ some off.number) && !(r.rolledBack.getD []).contains off.number
+
 def mon05 (libs : List (String × Bytes)) : Monitor G14 where
   init := {}
   next _ g op _ _ := { cfg := trackCfg g.cfg op }
   checks env g op pre post :=
     match op, g.cfg, post.ret with
     | .update _ sc, some c, .upd out =>
-      let decoded : Option Bytes :=
-        match sc.dl, libs.lookup c.libapp with
-        | some s, some base => (match bipatchDecode s base with | .ok o => some o | .error _ => none)
-        | _, _ => none
-      let good : Bool := match decoded, op.offer with
-        | some o, some off => checkHash o off.hash && signatureOk env c.key off.sig o
-        | _, _ => false
       ((match out, op.offer with
         | .installed, some off =>
-          [ (good, "C05: update reported 'installed' although the inflated download does not match the advertised hash"),
-            (post.nextNum = some off.number ∧ post.fileOf off.number = decoded ∧ decoded.isSome,
+          [ (dlGood env libs c sc (some off), "C05: update reported 'installed' although the inflated download does not match the advertised hash"),
+            (post.nextNum = some off.number ∧ post.fileOf off.number = dlDecoded libs c sc ∧ (dlDecoded libs c sc).isSome,
               "C05: after 'installed' the selected artifact is not byte-identical to the verified file") ]
         | .installed, none => [(false, "C05: 'installed' without an offer")]
         | _, _ =>
           -- every non-install leaves (next, current, banned) alone unless the response rolled something back
           -- or the selection was already invalid
-          let quiet : Bool := decide (rolledBackBy g.cfg op = []) && !resetsState g.cfg op pre &&
-            (match pre.ps.next with | some m => pre.valid env c.key m | none => true)
-          if quiet then
+          if quietUpdate env g.cfg c op pre then
             [ (post.ps.next = pre.ps.next ∧ post.curNum = pre.curNum ∧ post.ps.bad = pre.ps.bad,
                 s!"C05/C06: a failed or no-op update ({updTag out}) changed the next-boot patch, current patch or banned set") ]
           else []) : Checks) ++
       -- a download that does not verify must end in an error status
-      ((if post.net.any isDownload ∧ ¬ good then [(out.status = -1, "C05: bad download did not produce an error status")] else []) : Checks) ++
+      ((if post.net.any isDownload && !dlGood env libs c sc op.offer then [(out.status = -1, "C05: bad download did not produce an error status")] else []) : Checks) ++
       -- C06: with a healthy server and good content, the update installs
       ((match sc.resp, op.offer with
         | some r, some off =>
-          if good ∧ r.available ∧ ¬ (pre.ps.bad.contains off.number) ∧ ¬ resetsState g.cfg op pre ∧ pre.nextNum ≠ some off.number
-             ∧ ¬ (r.rolledBack.getD []).contains off.number ∧ ¬ op.isDamage
+          if healthyOffer env libs g.cfg c op sc r off pre
           then [(out = UpdateOut.installed ∨ post.nextNum = some off.number, s!"C06: a healthy update offering installable patch {off.number} did not install it ({updTag out})")]
           else []
         | _, _ => []) : Checks)
